@@ -3,6 +3,7 @@ import LitexProofs.Packet.Fifo
 import LitexProofs.Packet.Arbiter
 import LitexProofs.Packet.Fair
 import LitexProofs.Packet.RoundTrip
+import LitexProofs.Packet.Bytes
 /-
   C16 — Packet framing: headers round-trip and packets are never interleaved or torn.
 
@@ -213,6 +214,30 @@ theorem dispatcher_atomic (m : Nat) (oneHot : Bool) (ins : List DispIn) :
     routedFrom m oneHot none (dispLog m oneHot (dispatcher m oneHot).init ins) :=
   dispatcher_atomic_from m oneHot ins _ none (by simp [dispInv, dispatcher])
 
+/-- A beat is presented to at most one slave, unchanged: slave `k` sees the master's beat iff its `Case` key
+    equals the effective selector, and two different slaves never have the same key. -/
+theorem dispatcher_one_slave (m : Nat) (oneHot : Bool) (s : DispState) (i : DispIn) (k1 k2 : Nat)
+    (h1 : k1 < m) (h2 : k2 < m)
+    (v1 : (((dispatcher m oneHot).out s i).slaves.getD k1 Beat.idle).valid = true)
+    (v2 : (((dispatcher m oneHot).out s i).slaves.getD k2 Beat.idle).valid = true) :
+    k1 = k2 ∧ ((dispatcher m oneHot).out s i).slaves.getD k1 Beat.idle = i.master := by
+  have e : ∀ k, k < m → ((dispatcher m oneHot).out s i).slaves.getD k Beat.idle =
+      if dispKey oneHot k == dispSel s i then i.master else Beat.idle := by
+    intro k hk; simp [dispatcher, List.getD, hk]
+  rw [e k1 h1] at v1 ⊢
+  rw [e k2 h2] at v2
+  by_cases c1 : (dispKey oneHot k1 == dispSel s i) = true
+  · by_cases c2 : (dispKey oneHot k2 == dispSel s i) = true
+    · refine ⟨?_, by simp [c1]⟩
+      have hk : dispKey oneHot k1 = dispKey oneHot k2 := by
+        rw [beq_iff_eq] at c1 c2; rw [c1, c2]
+      unfold dispKey at hk
+      cases oneHot with
+      | false => simpa using hk
+      | true => exact Nat.pow_right_injective (Nat.le_refl 2) (by simpa using hk)
+    · simp [c2, Beat.idle] at v2
+  · simp [c1, Beat.idle] at v1
+
 /-- Non-vacuity: a two-beat packet started towards slave 1 stays there although `sel` flips to 0 before the
     second beat; the next packet (sel = 5 addresses nobody) is drained. -/
 example :
@@ -355,6 +380,17 @@ example :
   covered by the exhaustive correspondence (dw = 16, H ∈ {1, 3, 5}; dw = 24/32 in the thorough tier) and by the
   byte-stream framing monitors on the real code.
 -/
+
+/-- **Byte layout** (aligned header): the `W` header beats, flattened to bytes lane 0 first, are the header bytes
+    `0 … H-1` of the header signal (whose fields sit where `encode_layout` says). -/
+theorem packetizer_header_bytes (c : PkCfg) (hc : AlignedCfg c) (h : Nat) :
+    beatBytes c (hdrWords c h) = toBytes c.H h := hdrWords_bytes c hc h
+
+/-- … so a framed packet reads, byte by byte: `header bytes ++ payload bytes of beat 1 ++ …`. -/
+theorem frame_bytes (c : PkCfg) (hc : AlignedCfg c) (t : Tok HBeat) (r : List (Tok HBeat)) :
+    beatBytes c (frame c (t :: r)) =
+      toBytes c.H (hdrOf c t) ++ toBytes c.B (t.data.data % 2 ^ c.dw) ++ beatBytes c (frameAux c t.last r) :=
+  frame_bytes_cons c hc t r
 
 /-- The framing functions are inverse to each other on whole packets (pure statement). -/
 theorem deframe_frame_eq (c : PkCfg) (hc : AlignedCfg c) (a : List (Tok HBeat)) :
